@@ -85,6 +85,10 @@ func runC08(args []string) {
 			if r.Thorough() || done == 1 {
 				kinds = append(kinds, struct{ err, how string }{"eof", ""})
 			}
+			long := len(enc) > 1500 && !r.Thorough()
+			if long {
+				kinds = kinds[:1] // long encodings: one error kind per side in quick
+			}
 			for _, kd := range kinds {
 				ename := kd.err
 				if kd.how != "" {
@@ -154,9 +158,19 @@ func runC08(args []string) {
 			if r.Thorough() || done == 1 {
 				rkinds = append(rkinds, "ueof")
 			}
+			if long {
+				rkinds = rkinds[:1]
+			}
 			for _, ek := range rkinds {
-				codes, detail, dead := runCuts(ch, map[string]any{"op": "cuts", "pkg": t.Pkg.Name, "type": t.Def.Name, "hex": er.Encode, "how": "decode", "err": ek}, len(enc))
+				citem := map[string]any{"op": "cuts", "pkg": t.Pkg.Name, "type": t.Def.Name, "hex": er.Encode, "how": "decode", "err": ek}
+				if len(enc) > 1500 && !r.Thorough() {
+					citem["step"] = 53
+				}
+				codes, detail, dead := runCuts(ch, citem, len(enc))
 				for k, c := range codes {
+					if c == '-' {
+						continue
+					}
 					role := "?"
 					if k < len(roles) {
 						role = roles[k].Kind
